@@ -14,6 +14,7 @@ import DdnnfVerif.Model.D4Load
 import DdnnfVerif.Model.StreamMsg
 import DdnnfVerif.Model.Edit
 import DdnnfVerif.Model.TWise
+import DdnnfVerif.Model.SatState
 import DdnnfVerif.Proofs.PDLeaf
 import DdnnfVerif.Proofs.CnfExport
 namespace Ddnnf
@@ -171,6 +172,10 @@ def answer (nodes : List NType) (n : Nat) (kind : String) (args : List String) :
   | "core" => fmtInts (sortInts (coreDeadA nodes n A))
   | "tt" => String.ofList ((allBits n).map fun b => if eval (assignOf b) nodes (rootIx nodes) then '1' else '0')
   | "counts" => " ".intercalate ((counts nodes).toList.map toString)
+  | "satstate" =>
+      -- the imperative propagation on a fresh vector: answer and the exact mark bits afterwards
+      let (m, b) := SatS.satPropagate nodes n (Array.replicate nodes.length false) A
+      toString b ++ " " ++ String.ofList ((List.range nodes.length).map fun i => if SatS.markOf m i then '1' else '0')
   | "satmarks" =>
       let ms := satMarks nodes (A.map (fun f => -f))
       String.ofList (ms.toList.map fun m => if m.1 || m.2 == 0 then '1' else '0')
